@@ -8,6 +8,8 @@ ops: `oL<h>` reader(), `oI<h>:<id>` reader(id=), `oS<h>:<serial>` reader(serial=
 `M<int>` / `Mnone` set_max_versions, `Pnone` / `P.` / `P<id,id,…>` set_pruning_policy (ids on which the predicate is true),
 `Q<a>:<b>` set_pruning_policy(lambda zone, v: (a*len(zone._versions)+v.id) % (b+2) != 0),
 `O<h>` observe through read txn `h`.
+
+`c11.sections <op>` → `ok 1`: number of lock-protected sections the model gives the operation (it is one atomic step).
 -/
 namespace Driver
 open Model.Versioned
@@ -81,6 +83,13 @@ def handleC11 : List String → Option String
   | "c11.run" :: ops => do
     let ops ← ops.mapM parseOp11
     some (" ".intercalate ("ok" :: trace11 init ops))
+  | ["c11.sections", op] => do
+    -- every operation of the model is ONE step of `Model.Versioned.step`, i.e. one critical section under
+    -- `_version_lock`: choosing the version and registering the reader, removing a reader and pruning, appending a
+    -- version and pruning, installing a policy and pruning.  The harness reports how many times the implementation
+    -- acquires the lock during the same call.
+    let _ ← parseOp11 op
+    some "ok 1"
   | _ => none
 
 end Driver
